@@ -7,6 +7,8 @@ import (
 	"bytes"
 	"context"
 	"fmt"
+	"os"
+	"path/filepath"
 	"strings"
 	"testing"
 	"time"
@@ -30,8 +32,8 @@ type histDesc struct {
 	Cfg    deploy.Config `json:"config"`
 	Reuse  bool          `json:"reuse"`
 	Rounds int           `json:"rounds"` // number of (resell, TO2) rounds, 1..3
-	RvMfg  int           `json:"rv_mfg"`  // rendezvous-info variant set by the manufacturer
-	RvOwn  int           `json:"rv_own"`  // variant set by owners as replacement
+	RvMfg  int           `json:"rv_mfg"` // rendezvous-info variant set by the manufacturer
+	RvOwn  int           `json:"rv_own"` // variant set by owners as replacement
 	Cut    cut           `json:"cut"`
 }
 
@@ -273,6 +275,120 @@ func allConfigs() []deploy.Config {
 	return out
 }
 
+// ---- storage faults while the owner handles Done (SQLite backend) --------------------------
+
+type storeFault struct {
+	Cfg   deploy.Config `json:"config"`
+	Fault string        `json:"fault"` // insert-fails | delete-fails | update-fails | none
+}
+
+// evalStoreFault: the owner's voucher store is the real SQLite backend; while the owner
+// handles TO2.Done the store refuses one kind of statement on the vouchers table (a trigger
+// raising an error, as a full disk or a constraint would). TO2 then fails before the owner
+// accepted Done, so the device gets no credential and the owner's store must still hold
+// exactly the voucher that matches the device's current credential; once the fault is gone a
+// retry succeeds and credential and store agree.
+func evalStoreFault(d storeFault) ev.Result {
+	ctx, cancel := context.WithTimeout(context.Background(), 90*time.Second)
+	defer cancel()
+	scratch := deploy.ScratchDir()
+	defer os.RemoveAll(scratch)
+	mfg := deploy.NewMemService("mfg", deploy.KeyMfg)
+	owner, db, err := deploy.NewSQLiteService("owner", filepath.Join(scratch, "owner.db"), deploy.KeyOwner1, true)
+	if err != nil {
+		return ev.Failf("setup", "sqlite: %v", err)
+	}
+	defer db.Close()
+	dev := deploy.NewDevice(d.Cfg, deploy.KeyDevice)
+	tag := fmt.Sprintf("%s/%s fault=%s", d.Cfg.Key, d.Cfg.Enc, d.Fault)
+	if err := dev.DI(ctx, deploy.NewLink(mfg)); err != nil {
+		return ev.Failf("setup", "%s: DI: %v", tag, err)
+	}
+	if _, err := deploy.TransferVoucher(ctx, d.Cfg, mfg, deploy.KeyMfg, owner, deploy.KeyOwner1, dev.Cred.GUID); err != nil {
+		return ev.Failf("setup", "%s: transfer: %v", tag, err)
+	}
+	oldGUID := dev.Cred.GUID
+	before, err := owner.State.Voucher(ctx, oldGUID)
+	if err != nil {
+		return ev.Failf("setup", "%s: stored voucher: %v", tag, err)
+	}
+	beforeBytes, _ := cbor.Marshal(before)
+	credBefore, _ := cbor.Marshal(dev.Cred)
+	trig := map[string]string{
+		"insert-fails": "CREATE TRIGGER verif_fault BEFORE INSERT ON vouchers BEGIN SELECT RAISE(FAIL, 'disk full (injected)'); END",
+		"delete-fails": "CREATE TRIGGER verif_fault BEFORE DELETE ON vouchers BEGIN SELECT RAISE(FAIL, 'disk full (injected)'); END",
+		"update-fails": "CREATE TRIGGER verif_fault BEFORE UPDATE ON vouchers BEGIN SELECT RAISE(FAIL, 'disk full (injected)'); END",
+	}[d.Fault]
+	if trig != "" {
+		if _, err := db.DB().ExecContext(ctx, trig); err != nil {
+			return ev.Failf("setup", "%s: installing the fault: %v", tag, err)
+		}
+	}
+	cred, terr := dev.TO2(ctx, deploy.NewLink(owner), nil)
+	listGUIDs := func() ([]string, error) {
+		rows, err := db.DB().QueryContext(ctx, "SELECT guid FROM vouchers")
+		if err != nil {
+			return nil, err
+		}
+		defer rows.Close()
+		var out []string
+		for rows.Next() {
+			var g []byte
+			if err := rows.Scan(&g); err != nil {
+				return nil, err
+			}
+			out = append(out, fmt.Sprintf("%x", g))
+		}
+		return out, rows.Err()
+	}
+	if d.Fault == "none" {
+		if terr != nil {
+			return ev.Failf("storefault-control", "%s: TO2 without a fault failed on the SQLite backend: %v", tag, terr)
+		}
+		if why := deploy.Agreement(ctx, owner.State, nil, dev); why != "" {
+			return ev.Failf("agreement", "%s: after TO2 on the SQLite backend: %s", tag, why)
+		}
+		return ev.Trivial("storefault/control")
+	}
+	guids, lerr := listGUIDs()
+	if lerr != nil {
+		return ev.Failf("setup", "%s: listing vouchers: %v", tag, lerr)
+	}
+	if terr == nil {
+		// the fault did not bite (the statement kind is not used): then the handover simply completed
+		_, _ = db.DB().ExecContext(ctx, "DROP TRIGGER IF EXISTS verif_fault")
+		if why := deploy.Agreement(ctx, owner.State, nil, dev); why != "" {
+			return ev.Failf("agreement", "%s: TO2 succeeded despite the injected storage fault, but: %s", tag, why)
+		}
+		return ev.Trivial("storefault/fault-not-hit/" + d.Fault)
+	}
+	if cred != nil {
+		return ev.Failf("credential-despite-failure", "%s: TO2 failed (%v) but returned a credential", tag, terr)
+	}
+	if now, _ := cbor.Marshal(dev.Cred); !bytes.Equal(now, credBefore) {
+		return ev.Failf("credential-changed", "%s: the device credential changed although TO2 failed", tag)
+	}
+	after, verr := owner.State.Voucher(ctx, oldGUID)
+	if verr != nil {
+		return ev.Failf("voucher-lost-on-storage-fault", "%s: TO2 failed at Done (%v) and the owner no longer holds the voucher of the device's current credential (vouchers now: %v): %v", tag, terr, guids, verr)
+	}
+	if ab, _ := cbor.Marshal(after); !bytes.Equal(ab, beforeBytes) {
+		return ev.Failf("voucher-changed-on-storage-fault", "%s: the stored voucher changed although Done failed", tag)
+	}
+	if _, err := db.DB().ExecContext(ctx, "DROP TRIGGER IF EXISTS verif_fault"); err != nil {
+		return ev.Failf("setup", "%s: removing the fault: %v", tag, err)
+	}
+	if _, err := dev.TO2(ctx, deploy.NewLink(owner), nil); err != nil {
+		return ev.Failf("retry-failed-after-storage-fault", "%s: after the fault was removed TO2 still fails: %v (vouchers after the failed run: %v)", tag, err, guids)
+	}
+	if why := deploy.Agreement(ctx, owner.State, nil, dev); why != "" {
+		return ev.Failf("agreement", "%s: after the retry: %s", tag, why)
+	}
+	res := ev.OK("storefault/" + d.Fault)
+	res.ID = tag
+	return res
+}
+
 func TestC03(t *testing.T) {
 	r := ev.Start(t, "C03")
 	defer r.Finish()
@@ -307,6 +423,22 @@ func TestC03(t *testing.T) {
 			}
 		}
 	}, evalHist)
+
+	r.SetRule("storage-faults", "the owner's store is the real SQLite backend; while the owner handles TO2.Done one kind of statement on the vouchers table fails (trigger raising an error: INSERT, DELETE or UPDATE), for 4 configurations, plus a fault-free control. Oracle: TO2 fails without a credential, the device credential is unchanged, the owner still holds byte-for-byte the voucher of the device's current credential, and after the fault is removed a retry succeeds with credential and store in agreement. Exhaustive over faults × configurations.")
+	ev.Enum(r, "storage-faults", true, func(yield func(storeFault) bool) {
+		i := 0
+		for _, c := range reps() {
+			for _, f := range []string{"none", "insert-fails", "delete-fails", "update-fails"} {
+				i++
+				if !r.Mine(i) {
+					continue
+				}
+				if !yield(storeFault{Cfg: c, Fault: f}) {
+					return
+				}
+			}
+		}
+	}, evalStoreFault)
 
 	r.SetRule("histories", "rapid: configuration (all key types/encodings × valid key exchange × cipher) × reuse × 1..3 rounds of (extend/resell to the next of three owners, TO2) × rendezvous-info variants set by manufacturer and owners (empty, one directive, two directives, bypass) × optionally one cut; same oracle. Non-trivial: a fired cut, or ≥2 replace rounds; distinct by descriptor.")
 	ev.Rapid(r, "histories", ev.N{Quick: 1500, Thorough: 60000}, func(t *rapid.T) histDesc {
